@@ -17,7 +17,7 @@ for p in props:
         "evidence_file": "/verif/evidence/%s.json" % c.id,
         "replay_cmd_template": "./check %s --replay {path}" % c.id,
         "engine": c.engine,
-        "level_claimed": {"category": c.level, "text": c.text, "design_ref": "DESIGN.md section 3, " + c.id},
+        "level_claimed": {"category": c.level, "text": c.text, "design_ref": "DESIGN.md section 3 (design) and section 9.3 (as built), " + c.id},
         "level_note": c.note,
         "technique": c.technique,
     })
